@@ -43,6 +43,7 @@ let run_case ~(checked : bool) ~(ffr : bool) (nslots : int) (slot : int) (blk : 
   let sess : Mgr.updater option ref = ref None in
   let dead = ref false in
   let last_bl : int option ref = ref None in
+  let last_fb : int option ref = ref None in
   let crash : (int * (coq_N * coq_N) option) option ref = ref None in   (* absolute modifying-op index, torn *)
   let wops () = List.length (!dev).Mgr.dlog in
   let out = ref [] in
@@ -110,10 +111,11 @@ let run_case ~(checked : bool) ~(ffr : bool) (nslots : int) (slot : int) (blk : 
           dev := d;
           (match r with
            | Mgr.RPanic -> "panic" | Mgr.RErr e -> "err:" ^ merr_name e
-           | Mgr.ROk None -> "none" | Mgr.ROk (Some i) -> Printf.sprintf "some:%d" (int_of_nat i))
+           | Mgr.ROk None -> last_fb := None; "none" | Mgr.ROk (Some i) -> last_fb := Some (int_of_nat i); Printf.sprintf "some:%d" (int_of_nat i))
         | ("validbl" | "dumpbl"), _ when !last_bl = None -> "nobl"
-        | ("valid" | "validbl"), irest ->
-          let i = match irest with [i] -> int_of_string i | _ -> (match !last_bl with Some i -> i | None -> 0) in
+        | "validfb", _ when !last_fb = None -> "nofb"
+        | ("valid" | "validbl" | "validfb"), irest ->
+          let i = match irest with [i] -> int_of_string i | _ -> (match (if cmd = "validfb" then !last_fb else !last_bl) with Some i -> i | None -> 0) in
           if i >= nslots then "panic" else begin
             let (d, r) = Mgr.is_valid_firmware m (nat_of_int i) !dev in
             dev := d;
